@@ -94,7 +94,9 @@ impl Serializer {
                 }
             };
 
-            self.state.wrote_non_junk_entry = !matches!(entry, Entry::Junk { .. });
+            if self.options.with_junk || !matches!(entry, Entry::Junk { .. }) {
+                self.state.wrote_non_junk_entry = !matches!(entry, Entry::Junk { .. });
+            }
         }
     }
 
